@@ -157,7 +157,7 @@ def check_C14(run):
     mc_factor(run, ["q", "c"], ["p"])       # SolveCorrect: the kernels' specification composes to a correct solve for N / T / C
     g = Gen(run.seed * 1000 + 14)
     types = {"d": 0.85, "z": 0.6, "s": 0.35, "c": 0.35} if run.tier == "quick" else FULL_TYPES
-    run.conform("kernels", F.fam_kernels(g, "C14", sizes(run, 500, 4000), types), ["C14."])
+    run.conform("kernels", merge(F.fam_kernels(g, "C14", sizes(run, 500, 4000), types), F.fam_kernels_big(g, "C14", sizes(run, 200, 2000), types)), ["C14."])
     return run.finish(rule="factor pairs from ?gstrf on exact-domain matrices; sp_?trsv over every (uplo, trans, diag) combination and the documented lower-case spellings; ?gstrs nrhs 1..4 with padded B; sp_?gemv / sp_?gemm on rectangular matrices with alpha/beta in {0,1,-1,2,1/2}, strides, NaN-poisoned y for beta = 0")
 
 
@@ -432,10 +432,22 @@ def replay(run, path):
             scen.append(cur)
         else:
             cur["lines"].append(ln)
-    run.prefixes = [run.prop + "."]
-    res = vlib.execute(run.prop + "_replay", run.build("v0"), {meta["ty"]: scen})
+    run.prefixes = [run.prop + ".", meta.get("key", "?").split("@")[0]]
+    # a finding made by an observer build is replayed under that build
+    if "sanitizer" in meta.get("key", ""):
+        res = vlib.execute(run.prop + "_replay", run.build("v2"), {meta["ty"]: scen}, harness_env=SAN_ENV, tv_env={"MODE": "light"})
+    else:
+        res = vlib.execute(run.prop + "_replay", run.build("v0"), {meta["ty"]: scen})
     cands = run.judge(res)
+    import fnmatch
+    bad = 0
     for c in cands:
+        key = "%s@%s:%s" % (c["clause"], c["fn"], vlib.family_of(c["scenario"]["id"]))
+        k = next((k for k in run.known if fnmatch.fnmatchcase(key, k["key"])), None)
+        if k:
+            print("KNOWN-FINDING: property=%s %s [key %s; %s]" % (run.prop, k["what"], k["key"], c["scenario"]["id"]))
+            continue
+        bad += 1
         print("REPLAY: %s violates %s" % (c["scenario"]["id"], c["clause"]))
         print("VIOLATION property=%s replay=%s" % (run.prop, path))
-    return 1 if cands else 0
+    return 1 if bad else 0
